@@ -38,7 +38,7 @@ type c13Scenario struct {
 }
 
 var fmp4Ops = []string{"truncate", "truncate-box", "flip", "garbage", "empty", "zero-dur", "huge-dur", "huge-base", "drop-lead", "unknown-track", "dup-track", "no-samples", "swap-tracks"}
-var initOps = []string{"truncate", "truncate-box", "flip", "garbage", "empty", "many-tracks", "dup-ids", "no-tracks", "unsupported-only", "shift-ids"}
+var initOps = []string{"truncate", "truncate-box", "flip", "garbage", "empty", "many-tracks", "dup-ids", "no-tracks", "unsupported-only", "shift-ids", "zero-timescale", "huge-timescale"}
 var tsOps = []string{"truncate", "truncate-packet", "flip", "garbage", "empty", "drop-lead-pid", "no-tables"}
 var playlistOps = []string{"bytes", "truncate", "flip", "empty", "no-segments", "huge-numbers", "bad-uri", "map-without-uri"}
 
@@ -291,6 +291,16 @@ func mutateInit(b []byte, m c13Mut, extra []string, extraFirst bool) []byte {
 	case "shift-ids":
 		for _, t := range init.Tracks {
 			t.ID += 1 + m.Arg%5
+		}
+	case "zero-timescale":
+		for k, t := range init.Tracks {
+			if m.Arg%2 == 0 || k == m.Arg%len(init.Tracks) {
+				t.TimeScale = 0
+			}
+		}
+	case "huge-timescale":
+		for _, t := range init.Tracks {
+			t.TimeScale = 0xFFFFFFFF
 		}
 	case "unsupported-only":
 		for _, t := range init.Tracks {
